@@ -71,6 +71,27 @@ Section Wavelet.
                   (dwt2 L n1 n2 flo fhi glo ghi)
     end.
 
+  (* ---- three dimensions (ptwt.wavedec3 / waverec3): the 1-D bank along the last, the middle and the first axis of a row-major
+          (n1, n2, n3) volume; bands in the order aaa, aad, ada, add, daa, dad, dda, ddd (one letter per axis, first axis first), which is
+          the order of WaveletOp._format_coeffs_3d / _undo_format_coeffs_3d ---- *)
+  Definition band3_op (L n1 n2 n3 : nat) (fa ga fb gb fc gc : vec) : linop :=
+    let m2 := wlen L n2 in let m3 := wlen L n3 in
+    comp (along 1 (m2 * m3) (band_op L n1 (wlen L n1) fa ga))
+      (comp (along n1 m3 (band_op L n2 m2 fb gb)) (along (n1 * n2) 1 (band_op L n3 m3 fc gc))).
+  Definition dwt3 (L n1 n2 n3 : nat) (flo fhi glo ghi : vec) : linop :=
+    let b (a1 a2 a3 : bool) := band3_op L n1 n2 n3 (if a1 then fhi else flo) (if a1 then ghi else glo) (if a2 then fhi else flo) (if a2 then ghi else glo)
+                                           (if a3 then fhi else flo) (if a3 then ghi else glo) in
+    vstack (b false false false) (vstack (b false false true) (vstack (b false true false) (vstack (b false true true)
+      (vstack (b true false false) (vstack (b true false true) (vstack (b true true false) (b true true true))))))).
+  Fixpoint wavedec3_op (level : nat) (L n1 n2 n3 : nat) (flo fhi glo ghi : vec) : linop :=
+    match level with
+    | O => idop (R:=R) ((n1 * n2) * (n3 * 1))
+    | S l => let m1 := wlen L n1 in let m2 := wlen L n2 in let m3 := wlen L n3 in
+             let e := (1 * (m1 * (m2 * m3)))%nat in
+             comp (bdiag (wavedec3_op l L m1 m2 m3 flo fhi glo ghi) (idop (R:=R) (e + (e + (e + (e + (e + (e + e))))))))
+                  (dwt3 L n1 n2 n3 flo fhi glo ghi)
+    end.
+
   (* the filter-bank condition of orthogonal wavelets: rec = reversed (conjugated) dec, i.e. g = conj f *)
   Definition filters_match (L : nat) (f g : vec) : Prop := forall k, (k < L)%nat -> g k = kconj (f k).
 End Wavelet.
@@ -78,6 +99,7 @@ End Wavelet.
 Arguments zext {R}. Arguments analysis {R}. Arguments synthesis {R}. Arguments band_op {R}. Arguments bdiag {R}.
 Arguments dwt1 {R}. Arguments wavedec_op {R}. Arguments filters_match {R}.
 Arguments band2_op {R}. Arguments dwt2 {R}. Arguments wavedec2_op {R}.
+Arguments band3_op {R}. Arguments dwt3 {R}. Arguments wavedec3_op {R}.
 
 (* ---- executable helpers for the correspondence (filters as integer lists; pywt's float64 coefficients are dyadic
         rationals and are scaled to integers by the harness) ---- *)
@@ -86,6 +108,8 @@ Definition wavedec_Z (level L n : nat) (dec_lo dec_hi rec_lo rec_hi : list Z) : 
   wavedec_op (R:=ZRing) level L n (zvec (rev dec_lo)) (zvec (rev dec_hi)) (zvec rec_lo) (zvec rec_hi).
 Definition wavedec2_Z (level L n1 n2 : nat) (dec_lo dec_hi rec_lo rec_hi : list Z) : linop ZRing :=
   wavedec2_op (R:=ZRing) level L n1 n2 (zvec (rev dec_lo)) (zvec (rev dec_hi)) (zvec rec_lo) (zvec rec_hi).
+Definition wavedec3_Z (level L n1 n2 n3 : nat) (dec_lo dec_hi rec_lo rec_hi : list Z) : linop ZRing :=
+  wavedec3_op (R:=ZRing) level L n1 n2 n3 (zvec (rev dec_lo)) (zvec (rev dec_hi)) (zvec rec_lo) (zvec rec_hi).
 Definition dense_fwd (A : linop ZRing) : list (list Z) :=
   map (fun j => map (fun i => fwd A (delta (R:=ZRing) j) i) (seq 0 (ran A))) (seq 0 (dom A)).
 Definition dense_adj (A : linop ZRing) : list (list Z) :=
